@@ -47,7 +47,10 @@ func NewOverlayPlacer(workDir fs.AbsolutePath) (Placer, error) {
 		case fs.Type_Dir:
 			// pass
 		case fs.Type_Symlink, fs.Type_NamedPipe, fs.Type_Socket, fs.Type_Device, fs.Type_CharDevice:
-			return BindPlacer(srcPath, dstPath, writable)
+			// There is nothing to overlay, and a writable bind would hand out the source node itself:
+			//  a chmod or chown through the placement would change the source.  Bind it read-only; devices and
+			//  pipes are written *through*, not *to*, so they stay as usable as they were.
+			return BindPlacer(srcPath, dstPath, false)
 		default:
 			panic("unreachable file type enum")
 		}
